@@ -175,9 +175,9 @@ def run_bin(case, seed, R):
             mats[name] = A
             ones_in = np.ones(A.shape[1])
             if name.endswith('sum'):
-                R.expect_close(A.sum(0), ones_in, tol, sig + ':conserve', f'{name} does not conserve the total (column sums)')
+                R.expect_close(A.sum(0), ones_in, 8 * tol * pf, sig + ':conserve', f'{name} does not conserve the total (column sums)')
             else:
-                R.expect_close(A @ ones_in, np.ones(A.shape[0]), tol * pf, sig + ':conserve', f'{name} does not conserve the level of a constant array')
+                R.expect_close(A @ ones_in, np.ones(A.shape[0]), 8 * tol * pf, sig + ':conserve', f'{name} does not conserve the level of a constant array')
     if 'bindown:sum' in mats and 'tile:avg' in mats:
         R.expect_close(mats['bindown:sum'], mats['tile:avg'].T, tol, f'adjoint:bindown(sum)-tile(avg):{nd}d', 'bindown(sum) is not the transpose of tile(avg)')
     if 'bindown:avg' in mats and 'tile:sum' in mats:
@@ -185,8 +185,8 @@ def run_bin(case, seed, R):
     # dense array: superposition, defaults, aliases, scalar factor, <x, tile(y)> == <bindown(x), y>
     x = dense(shape, seed, 1, complex_=False)
     y = dense(small, seed, 2, complex_=False)
-    tx = 16 * EPS * float(np.abs(x).sum())
-    ty = 16 * EPS * float(np.abs(y).sum())
+    tx = 32 * EPS * float(np.abs(x).sum())
+    ty = 32 * EPS * float(np.abs(y).sum())
     bs = R.call(detector.bindown, x.copy(), factor, 'sum')
     R.expect_close(bs, (S @ x.ravel()).reshape(small), tx, f'bindown:sum:{nd}d', 'dense array, sum')
     if bs is not FAILED and np.asarray(bs).shape == small:
@@ -196,7 +196,7 @@ def run_bin(case, seed, R):
     ts = R.call(detector.tile, y.copy(), factor)
     R.expect_close(ts, (S.T @ y.ravel()).reshape(shape) / pf, ty, f'tile:default-sum:{nd}d', 'default scaling of tile must be sum')
     if ts is not FAILED and np.asarray(ts).shape == shape:
-        R.expect_close(np.asarray(ts).sum(), y.sum(), ty, f'tile:sum:{nd}d:conserve', 'total of dense array')
+        R.expect_close(np.asarray(ts).sum(), y.sum(), 4 * ty, f'tile:sum:{nd}d:conserve', 'total of dense array')
         if ba is not FAILED and np.asarray(ba).shape == small:
             R.expect_close((x * np.asarray(ts)).sum(), (np.asarray(ba) * y).sum(), 16 * EPS * float(np.abs(x).sum() * np.abs(y).max()),
                            f'adjoint:bindown(avg)-tile(sum):{nd}d', '<x, tile(y)> != <bindown(x), y> for the default pair')
